@@ -103,13 +103,16 @@ func vfCheckRotation(p vfPool, next func() (*url.URL, error), us []*url.URL, ref
 		}
 	}
 	if total == 0 {
-		_, err := next()
-		verifAssert("empty-pool-next-error", err != nil)
-		rec := &verifRecorder{}
-		before := down.calls
-		p.ServeHTTP(rec, &http.Request{URL: &url.URL{Path: "/req"}, Header: http.Header{}})
-		verifAssert("empty-pool-not-forwarded", down.calls == before)
-		verifAssert("empty-pool-error-response", verifAnd(len(rec.Codes) == 1, rec.code(0) >= 500))
+		// empty or all-zero pool: every selection fails and no request is forwarded
+		for k := 0; k < 2*ref.count+2; k++ {
+			_, err := next()
+			verifAssert("empty-pool-next-error", err != nil)
+			rec := &verifRecorder{}
+			before := down.calls
+			p.ServeHTTP(rec, &http.Request{URL: &url.URL{Path: "/req"}, Header: http.Header{}})
+			verifAssert("empty-pool-not-forwarded", down.calls == before)
+			verifAssert("empty-pool-error-response", verifAnd(len(rec.Codes) == 1, rec.code(0) >= 500))
+		}
 		return
 	}
 	var hits [3]int
@@ -164,6 +167,18 @@ func VerifC02History() {
 	ref := &vfRef{}
 	clockInit := verifClockInit("t0")
 	_ = clockInit
+	// optional preloaded members with symbolic weights 0..2 (add, then re-weight)
+	for i := 0; i < verifParam("pre"); i++ {
+		wv := verifInt(verifName("pw", i))
+		verifAssume(verifAnd(wv >= 0, wv <= 2))
+		w := verifConcretize(wv, 0, 2)
+		u := us[vfRep[i]]
+		e1 := p.UpsertServer(u)
+		e2 := p.UpsertServer(u, Weight(w))
+		verifAssert("preload-ok", verifAnd(e1 == nil, e2 == nil))
+		ref.member[i], ref.weight[i] = true, w
+		ref.count++
+	}
 	for step := 0; step < k; step++ {
 		opv := verifInt(verifName("op", step))
 		verifAssume(verifAnd(opv >= 0, opv <= 2))
